@@ -14,6 +14,11 @@
 
 use crate::errors::{Error, Result};
 use crate::types::SequenceId;
+#[cfg(edp_verif)]
+use crate::verif::DetHashMap as HashMap;
+#[cfg(edp_verif)]
+use std::collections::hash_map::Entry;
+#[cfg(not(edp_verif))]
 use std::collections::{HashMap, hash_map::Entry};
 #[cfg(edp_verif)]
 use std::time::Duration;
